@@ -17,6 +17,7 @@ type obj = { topo : string; dim : int; s : sys; gens : gen list option }
 
 exception Syntax of string
 exception Skip of string      (* operation not modelled: state of the receiver is re-synchronised from the implementation *)
+exception Relational of sys * sys   (* refinement: any result R with  lower <= R <= upper  (as point sets) is correct *)
 
 (* ---- token cursor ---- *)
 type cur = { mutable t : string list }
@@ -77,6 +78,7 @@ let timed (f : unit -> 'a) (dflt : 'a) : 'a =
     let r = f () in stop (); r
   with Timeout -> stop (); incr timeouts; Gc.compact (); dflt
      | Stack_overflow | Out_of_memory -> stop (); incr timeouts; Gc.compact (); dflt
+     | e -> stop (); raise e
 
 
 (* ---- the reference semantics of one operation ---- *)
@@ -120,11 +122,12 @@ and ref_op_raw c : int * obj * (unit -> bool option) option =
   | "add_constraint" | "refine_with_constraint" ->
       let k = read_con c n in
       if op = "add_constraint" && x.topo = "C" && k.ckd = GT then raise (Skip "strict constraint into a C polyhedron");
-      let k = if op = "refine_with_constraint" && x.topo = "C" && k.ckd = GT then { k with ckd = GE } else k in
+      if op = "refine_with_constraint" && x.topo = "C" && k.ckd = GT then raise (Relational (union_sys x.s (single k), x.s));
       id, upd (union_sys x.s (single k)), none
   | "add_constraints" | "refine_with_constraints" | "add_recycled_constraints" ->
       let ks = read_cons c n in
-      let ks = if op = "refine_with_constraints" && x.topo = "C" then List.map (fun k -> if k.ckd = GT then { k with ckd = GE } else k) ks else ks in
+      if op = "refine_with_constraints" && x.topo = "C" && List.exists (fun k -> k.ckd = GT) ks then
+        raise (Relational (union_sys x.s (sys_of_cons ks), x.s));
       id, upd (union_sys x.s (sys_of_cons ks)), none
   | "add_generator" ->
       let g = read_gen c n in
@@ -169,12 +172,19 @@ and ref_op_raw c : int * obj * (unit -> bool option) option =
       let cgs = if op = "add_congruence" || op = "refine_with_congruence" then [ (let m = nextz c in let b = nextz c in let a = take_z c n in (m, b, a)) ]
                 else (let k = nexti c in List.init k (fun _ -> let m = nextz c in let b = nextz c in let a = take_z c n in (m, b, a))) in
       let is_add = (op = "add_congruence" || op = "add_congruences") in
+      let proper = ref false in
       let s' = List.fold_left (fun s (m, b, a) ->
         if m = Z0 then union_sys s (single { ccoefs = a; ccst = b; ckd = EQ })
         else if List.for_all (fun z -> z = Z0) a then
-          (if Z.modulo b (Z.abs m) = Z0 then s else false_sys)
+          (if Z.modulo b (Z.abs m) = Z0 then s
+           else if is_add then false_sys
+           else (proper := true; s))
         else if is_add then raise (Skip "proper congruence into a polyhedron (invalid_argument expected)")
-        else s) x.s cgs in
+        else (proper := true; s)) x.s cgs in
+      (* refinement with congruences a polyhedron cannot express: any result between the exact meet and the
+         receiver is a correct refinement; the lower fence used here is the meet with the expressible part only
+         when every inexpressible congruence is a contradiction the implementation is free to ignore, hence: *)
+      if !proper then raise (Relational (false_sys, x.s));
       id, upd s', none
   | "concatenate_assign" -> let y = get (nexti c) in id, { x with s = concatenate (nat n) x.s y.s; dim = n + y.dim; gens = None }, none
   | "topological_closure_assign" -> id, upd (closure_of x), none
@@ -415,7 +425,7 @@ let () =
                   let vs = check_state x0 st in
                   List.iter (fun (k, v) -> report ("op-exn-unchanged/" ^ k) line v) vs;
                   (try let _ = ref_op { t = rest } in report ("op:" ^ name) line (Fail ("well-formed call threw " ^ cls)); dead := true
-                   with Skip _ -> ());
+                   with Skip _ -> () | Relational _ -> report ("op:" ^ name) line (Fail ("well-formed call threw " ^ cls)); dead := true);
                   if not !dead then resync id0 st
               | `Ok ->
                   let id, o, expret = ref_op { t = rest } in
@@ -428,7 +438,17 @@ let () =
                   List.iter (fun (k, v) -> report ("op:" ^ name ^ "/" ^ k) line v) vs;
                   if List.exists (fun (_, v) -> match v with Fail _ -> true | _ -> false) vs then dead := true
                   else resync id st)
-           with Skip why when name = "simplify_using_context_assign" && r = `Ok ->
+           with Relational (lo, hi) when r = `Ok ->
+             bump ("op:" ^ name);
+             let x0 = get id0 in
+             let rs = sys_of_cons st.scons in
+             let dn = nat (x0.dim + 1) in
+             report ("op:" ^ name ^ "/dd") line (of_ob true (timed (fun () -> dd_pair (nat st.sdim) st.scons st.sgens) None));
+             report ("op:" ^ name ^ "/OK") line (if st.sok = 1 then Ok else Fail "OK() returned false");
+             report ("op:" ^ name ^ "/value") line (of_ob true (timed (fun () -> incl_sys dn lo rs) None));
+             report ("op:" ^ name ^ "/value") line (of_ob true (timed (fun () -> incl_sys dn rs hi) None));
+             resync id0 st
+           | Skip why when name = "simplify_using_context_assign" && r = `Ok ->
              (* relational specification: the result contains the receiver, has the same meet with the
                 context, and the flag says whether that meet is non-empty *)
              bump ("op:" ^ name);
